@@ -399,13 +399,6 @@ impl Case {
                     RoleState::Dead(_) | RoleState::Exited => skipped = true,
                     _ => {
                         let _ = self.ctl.tick(STEP_TIMEOUT);
-                        if self.cache.verif_snapshot().is_shutting_down {
-                            // the sweeper leaves its loop after this sweep if shutdown() got as far as its stop flag
-                            let deadline = std::time::Instant::now() + Duration::from_millis(300);
-                            while self.ctl.role_state(Role::Sweeper) != RoleState::Exited && std::time::Instant::now() < deadline {
-                                thread::sleep(Duration::from_micros(100));
-                            }
-                        }
                     }
                 }
             }
@@ -426,6 +419,13 @@ impl Case {
             other => panic!("unknown event {}", other),
         }
         self.settle_draining();
+        // a role that panicked: wait until its thread has finished unwinding (its channel ends are dropped)
+        for role in [Role::Worker, Role::Sweeper, Role::Consumer] {
+            if matches!(self.ctl.role_state(role), RoleState::Dead(_) | RoleState::Exited) {
+                let deadline = std::time::Instant::now() + Duration::from_secs(5);
+                while !self.ctl.role_gone(role) && std::time::Instant::now() < deadline { thread::sleep(Duration::from_micros(50)); }
+            }
+        }
         let consumer_gone = matches!(self.ctl.role_state(Role::Consumer), RoleState::Exited | RoleState::Dead(_));
         let snap = self.cache.verif_snapshot();
         let acks: Vec<J> = self.acks.iter().map(|a| J::I(poll_ack(a).unwrap_or(0))).collect();
